@@ -48,6 +48,7 @@ class Path:
         self.decisions = list(decisions)
         self.pos = 0
         self.trace = []  # (taken, [alternatives]) for every choice point
+        self.labels = []  # human-readable log of the choices taken (diagnostics only)
         self.solver = z3.Solver()
         self.pc = []
         self.obligations: list[Obligation] = []
@@ -118,6 +119,8 @@ class Path:
             self.pos += 1
             self.trace.append((k, []))
             val, guard = options[k]
+            if label != "branch":
+                self.labels.append(f"{label}={val!r}"[:60])
             self.assume(guard)
             return val
         feas = [i for i, (_, g) in enumerate(options) if self.feasible(g)]
@@ -128,6 +131,8 @@ class Path:
         self.decisions.append(k)
         self.trace.append((k, feas[1:]))
         val, guard = options[k]
+        if label != "branch":
+            self.labels.append(f"{label}={val!r}"[:60])
         if len(feas) > 1 or guard is not True:
             self.assume(guard)
         return val
@@ -163,6 +168,7 @@ class Path:
             verdict = "discharged"
         elif r == z3.sat:
             verdict = "refuted"
+            detail = detail + " || path choices: " + ", ".join(self.labels[-14:])
             m = self.solver.model()
             # prefer a small counter-model (short sequences) so that it can be replayed on the real code
             if self.seq_lens:
